@@ -130,9 +130,6 @@ def classify(spec, mode, variant, kind, detail, cols, net_info):
                           "res_pipe.v_mean_m_per_s"}:
         sig.update(clause="engine_twin", columns="gas norm factors / velocities", direction_switched=True)
         return sig
-    if not upd and kind == "status" and spec["fluid"] != "water" and net_info["zero_flow_branch"]:
-        sig.update(columns="convergence", zero_flow_branch=True, gas=True)
-        return sig
     sig.update(variant=variant, columns=cols[:3], mode=mode, fluid=spec["fluid"])
     return sig
 
@@ -197,6 +194,26 @@ def api_differential(ctx, wide=False):
         ctx.case({"spec": spec, "mode": mode, "load_factors": factors, "reference": ref, "counts": d["counts"]}, conv)
         if not dis:
             continue
+        if all(k == "status" for _, _, k, _, _ in dis):
+            # convergence differs at tol 1e-10: below the kernels' own 1e-8 regularisation of |m| a run may stall just above
+            # tol_m in one engine only (design_notes/C07.md, observation).  The property is about the same options, so the
+            # comparison is repeated at the default tolerances (iter = 100); only a difference there is reported.
+            ref2, dis2 = CA.compare_all(spec, factors, mode, variants=[v for v in CA.VARIANTS if v[0] in {d[0] for d in dis}],
+                                        opts=dict(iter=100))
+            if not dis2:
+                ctx.count("status_differs_only_at_tol_1e-10")
+                continue
+            dis = dis2
+        if any(k == "values" for _, _, k, _, _ in dis):
+            # is the solution of this net unique at all?  The numpy reference is repeated with a damped Newton iteration
+            # (alpha = 0.6, another iteration path to the same equations); if the reference does not reproduce ITSELF the
+            # net is ill-posed (e.g. a compressor between two pressure-fixed junctions: its flow is a free variable of a
+            # singular system) and says nothing about the engines
+            ref_a = CA.run_variant(spec, factors, mode, False, False, False, False)
+            ref_b = CA.run_variant(spec, factors, mode, False, False, False, False, opts=dict(CA.TIGHT, alpha=0.6, iter=300))
+            if any(ra[0] == "ok" and rb[0] == "ok" and CA.diff_results(ra[1], rb[1]) for ra, rb in zip(ref_a, ref_b)):
+                ctx.count("ill_posed_net_reference_not_reproducible_under_damping")
+                continue
         info = net_facts(spec, mode)
         for variant, step, kind, detail, cols in dis[:6]:
             sig = classify(spec, mode, variant, kind, detail, cols, info)
